@@ -61,6 +61,14 @@ class Summary:
                     pc=[str(c)[:200] for c in self.pc])
 
 
+def cstrings(text):
+    """{global name: python str} for the private string constants of the module (`@.str.N = ... c"..\\00"`)."""
+    out = {}
+    for m in re.finditer(r'^@([\w.]+) = private unnamed_addr constant \[\d+ x i8\] c"(.*)\\00"', text, re.M):
+        out[m.group(1)] = re.sub(r'\\([0-9A-Fa-f]{2})', lambda k: chr(int(k.group(1), 16)), m.group(2))
+    return out
+
+
 class FunExec:
     """Depth-first enumeration of the feasible paths of one IR function.
 
@@ -305,10 +313,17 @@ class FunExec:
             base = self.val(parts[1].split()[-1], env)
             idx = [self.val(p.split()[-1], env) for p in parts[2:]]
             struct = parts[0].strip()
+            if isinstance(base, P) and base.kind == 'array':
+                env[ins.dst] = ('addr', base, 'elem', (idx[0],))          # pointer arithmetic into an item vector
+                return None
             if isinstance(base, tuple) and base[0] == 'addr':
                 env[ins.dst] = ('addr', base[1], base[2], base[3] + tuple(idx[1:]))
             else:
                 env[ins.dst] = ('addr', base, struct, tuple(idx[1:]))
+            return None
+        if op == 'alloca':
+            env[ins.dst] = P('local %s' % ins.dst, 'cell')       # an address-taken local (out-parameter of an API call)
+            env[ins.dst].fields[('', ())] = None
             return None
         if op == 'load':
             parts = _split_top(t)
@@ -388,6 +403,13 @@ class FunExec:
 
     def load(self, addr):
         base, struct, path = self._resolve(addr, 'load')
+        if base.kind == 'array':
+            i = path[0]
+            if not isinstance(i, int):
+                raise Inconclusive('symbolic index into %r' % base)
+            if not 0 <= i < len(base.items):
+                raise Defect('read of item %d of %s, which has %d item(s)' % (i, base.label, len(base.items)))
+            return base.items[i]
         key = (struct, path)
         if key not in base.fields:
             base.fields[key] = self.world.field(self, base, struct, path)
@@ -403,6 +425,8 @@ class FunExec:
                 base.fields[key] = None
         old = base.fields[key]
         base.fields[key] = v
+        if base.kind == 'cell':
+            return
         if isinstance(old, P):
             old.frame += 1          # the reference the field held passes to the frame (Py_CLEAR pattern)
         if isinstance(v, P):
